@@ -52,3 +52,21 @@ func (f *recFactory) Delta(prev map[string]float64) map[string]float64 {
 }
 
 var recorder = &recFactory{vals: map[string]float64{}}
+
+// bothFactory fans every counter out to the recording factory (read by the oracles) and to the repository's
+// real Prometheus binding (monitoring/prometheus over client_golang), so that the metrics backend production
+// uses is on the path of every request the simulation makes - a label value it rejects panics here as it would there.
+type bothFactory struct {
+	a, b monitoring.MetricFactory
+}
+
+type bothCounter struct{ a, b monitoring.Counter }
+
+func (f bothFactory) NewCounter(name, help string, labelNames ...string) monitoring.Counter {
+	return bothCounter{f.a.NewCounter(name, help, labelNames...), f.b.NewCounter(name, help, labelNames...)}
+}
+
+func (c bothCounter) Inc(labelVals ...string) {
+	c.a.Inc(labelVals...)
+	c.b.Inc(labelVals...)
+}
